@@ -213,8 +213,10 @@ def check_selection(ctx, store, res, addr_kind, ref_kind, q_ada, q_tok, many, co
 
 def h_select(ctx, tier, seed, n=2, addr_kinds=(0, 1, 2), ref_kinds=(0, 1, 2), fixed=None, bits=None):
     eng = ctx.eng
-    if bits and tier == "quick":
-        ctx.amount_bits = bits
+    if bits:
+        # three-term sums over wide vectors dominate the solver time: three-candidate stores use narrow
+        # amounts (quick) / moderately narrow ones (thorough); two-candidate stores keep 16 / 40 bits
+        ctx.amount_bits = bits if tier == "quick" else max(bits, 10)
     store = Store(ctx, n)
     store.install(eng)
     addr_kind = addr_kinds[eng.choose(len(addr_kinds), "query address")]
@@ -266,9 +268,22 @@ for ak in (0, 1, 2):
                             max_paths=400000, time_limit=1200))
 # three candidates in the quick tier for the multi-UTxO accumulation and trimming steps (which need >= 3 UTxOs to differ from n = 2)
 HARNESSES.append(_h("c03_n3_many_lovelace", lambda ctx, tier, seed: h_select(ctx, tier, seed, 3, addr_kinds=(1,), ref_kinds=(0,), fixed=dict(want_ada=True, want_tok=False, many=True, collateral=False), bits=6),
-                    "store of 3 UTxOs; query fromA / noref, many, lovelace threshold symbolic; amounts below 2^6 (quick) / 2^40 (thorough); every candidate order", max_paths=400000, time_limit=1200))
+                    "store of 3 UTxOs; query fromA / noref, many, lovelace threshold symbolic; amounts below 2^6 (quick) / 2^10 (thorough); every candidate order", max_paths=400000, time_limit=1200))
 HARNESSES.append(_h("c03_n3_many_token", lambda ctx, tier, seed: h_select(ctx, tier, seed, 3, addr_kinds=(1,), ref_kinds=(0,), fixed=dict(want_ada=False, want_tok=True, many=True, collateral=False), bits=6),
-                    "store of 3 UTxOs; query fromA / noref, many, token threshold symbolic; amounts below 2^6 (quick) / 2^40 (thorough); every candidate order", max_paths=400000, time_limit=1200))
+                    "store of 3 UTxOs; query fromA / noref, many, token threshold symbolic; amounts below 2^6 (quick) / 2^10 (thorough); every candidate order", max_paths=400000, time_limit=1200))
 for ak, rk in ((1, 0), (0, 0), (0, 1), (1, 1)):
-    HARNESSES.append(_h("c03_n3_%s_%s" % (AK[ak], RK[rk]), _mk(3, ak, rk),
-                        "store of 3 UTxOs; query %s / %s; %s" % (AK[ak], RK[rk], Q), tier="thorough", max_paths=2000000, time_limit=3000))
+    # the two `noref` stores are split by {single, many} x {input, collateral} so that each part ends well within its time limit
+    parts = [(m, c, None) for m in (False, True) for c in (False, True)] if rk == 0 else [None]
+    # the heaviest part (many, input) is split once more by what is requested; lovelace-only and token-only
+    # requests over a party's UTxOs are the quick-tier harnesses c03_n3_many_lovelace / c03_n3_many_token
+    parts = [p_ for p_ in parts if p_ is None or (p_[0], p_[1]) != (True, False)] + ([(True, False, "both"), (True, False, "neither")] + ([(True, False, "lovelace"), (True, False, "token")] if ak == 0 else []) if rk == 0 else [])
+    for part in parts:
+        fixed = dict(many=part[0], collateral=part[1]) if part else None
+        suffix = ("_%s_%s" % ("many" if part[0] else "single", "collateral" if part[1] else "input")) if part else ""
+        if part and part[2]:
+            fixed.update(want_ada=part[2] in ("both", "lovelace"), want_tok=part[2] in ("both", "token"))
+            suffix += "_" + part[2]
+        HARNESSES.append(_h("c03_n3_%s_%s%s" % (AK[ak], RK[rk], suffix),
+                            (lambda ak, rk, fixed: lambda ctx, tier, seed: h_select(ctx, tier, seed, 3, addr_kinds=(ak,), ref_kinds=(rk,), bits=10, fixed=fixed))(ak, rk, fixed),
+                            "store of 3 UTxOs (amounts below 2^10); query %s / %s%s; %s" % (AK[ak], RK[rk], (" (%s)" % suffix.strip("_").replace("_", ", ")) if part else "", Q),
+                            tier="thorough", max_paths=2000000, time_limit=6000))
